@@ -406,6 +406,13 @@ func main() {
 					}
 				}
 			}
+			if err == nil && t.name == "c18-lazymap-steps" {
+				// the whole list is what the model was written against (Props/C18.lean states the
+				// baseline list): any difference is a changed shape
+				if fb, ok := baseline[key]; ok && fb != sub.b.String() {
+					err = fmt.Errorf("the atomic steps of the source are no longer those of the model: %s", strings.TrimSpace(sub.b.String()))
+				}
+			}
 			if err == nil {
 				fresh[key] = sub.b.String()
 				e.b.WriteString(sub.b.String())
